@@ -108,6 +108,11 @@ def check(run, ctx):
     run.require(bool(starts), "get_or_detect_project_root no longer calls get_project_root")
     off_target = [c_ for c_ in starts if not (c_.args and any(isinstance(x, ast.Name) and x.id == ppar for x in ast.walk(expand_locals(gd.node, c_.args[0]))))]
     spelled = [c_ for c_ in ast.walk(gd.node) if is_call_named(c_, "is_absolute")]
+    # file or directory is asked of the file system (is_dir()/is_file()), not read off the name (.suffix, '.' in name)
+    by_name = [x for x in ast.walk(gd.node) if (isinstance(x, ast.Attribute) and x.attr in ("suffix", "suffixes", "stem")) or (isinstance(x, ast.Call) and call_name(x) in ("splitext",))
+               or (isinstance(x, ast.Compare) and isinstance(x.ops[0], ast.In) and isinstance(x.left, ast.Constant) and x.left.value == ".")]
+    if by_name:
+        run.finding(Q3, "get_or_detect_project_root", f"kind-by-name:{alpha(gd.node, by_name[0])}", f"whether the first target is a file or a directory is read off its name (`{norm(by_name[0])}`): a project directory with a dot in its name (`site.v2`, `example.com`) is taken for a file when named directly, the search starts one level too high and its own configuration and ignore file are not found - `cd site.v2 && thailint ... .` still finds them", f"{gd.module.rel}:{by_name[0].lineno}")
     if off_target or spelled:
         w_ = norm(off_target[0]) if off_target else norm(spelled[0])
         run.finding(Q3, "get_or_detect_project_root", f"root-search-start:{w_}", f"the search for the project root does not always start at the first target (`{w_}`): how the target is spelled (relative vs absolute) or the working directory decides which project configuration and ignore file are found", gd.loc)
